@@ -211,7 +211,8 @@ Definition chk_dec (c : bool * option msg * bytes * res obj * res (option obj)) 
    match om with
    | Some m =>
        match obs with
-       | Ok o => match abs o with Some d => msg_matches m d | None => false end
+       | Ok o => cls_eqb (class_of o) (spec_class m) &&
+                 match abs o with Some d => msg_matches m d | None => false end
        | Raise _ => false
        end &&
        wrap_eqb wobs (match obs with Ok o => Ok (Some o) | Raise e => Raise e end)
